@@ -34,19 +34,20 @@ def validate(res, module, name, traces, constants, overrides=None, invariants=()
     states = 0
     for k, r in enumerate(results):
         states += r.distinct
+        m = re.search(r'Invariant (\w+) is violated', r.out)
+        if m:
+            # an invariant of the base module failed on a state reached while following a real execution;
+            # TLC stopped there, so the REJECT lines of this shard are meaningless
+            tail = r.out[r.out.find('is violated'):]
+            tids = re.findall(r'/\\ tid = (\d+)', tail)
+            ls = re.findall(r'/\\ l = (\d+)', tail)
+            rejected.append((index[k][int(tids[-1]) - 1] if tids else -1, 'invariant %s after event %s' % (m.group(1), int(ls[-1]) - 2 if ls else '?')))
+            continue
         rej = re.findall(r'<<"REJECT", (\d+), (\d+)>>', r.out)
         for t, hw in rej:
             rejected.append((index[k][int(t) - 1], int(hw) - 1))
-        bad = r.violated
-        if bad and not rej:
-            if bad in ('error', 'timeout') or 'Accepted' not in r.out:
-                # an invariant of the base module failed on a state reached while following a real execution
-                m = re.search(r'Invariant (\w+) is violated', r.out)
-                if m:
-                    tid = re.search(r'/\\ tid = (\d+)', r.out[r.out.find('is violated'):] or '')
-                    rejected.append((index[k][int(tid.group(1)) - 1] if tid else -1, 'invariant ' + m.group(1)))
-                else:
-                    raise MachineryError('trace validation %s/%s shard %d failed: %s\n%s' % (module, name, k, bad, r.out[-3000:]))
+        if r.violated and not rej:
+            raise MachineryError('trace validation %s/%s shard %d failed: %s\n%s' % (module, name, k, r.violated, r.out[-3000:]))
     res.tlc_runs.append({'module': module, 'config': name, 'mode': 'trace validation (pipeline B)', 'traces': len(traces),
                          'events': sum(len(t['events']) for t in traces), 'distinct_states': states, 'shards': shards,
                          'rejected': len(rejected), 'wall_s': round(max(r.wall for r in results), 1)})
